@@ -5,7 +5,7 @@ OPS = ["overflowing_shl", "overflowing_shr", "checked_shl", "checked_shr", "wrap
        "unbounded_shl", "unbounded_shr", "rotate_left", "rotate_right", "strict_shl", "strict_shr"]
 
 
-def gen(rng, tier):
+def _gen_main(rng, tier):
     reps = 150 if tier == "thorough" else 20
     for cfg in cfgs(tier):
         w, n = wn(cfg)
@@ -30,3 +30,20 @@ def gen(rng, tier):
                     for a in vals:
                         for k in range(0, 2 * W + 2):
                             yield f"{op} {s}{cfg} {hx(a)} {k}", "exhaustive-amounts"
+
+
+def gen(rng, tier):
+    yield from _gen_main(rng, tier)
+    yield from _grid(rng, tier)
+
+
+def _grid(rng, tier):
+    for cfg in GRID_CFGS:
+        w, n = wn(cfg)
+        W = w * n
+        amounts = sorted(set([0, 1, w - 1, w, w + 1, W - 1, W, W + 1, 2 * W - 1] + [k for k in range(0, W, max(1, W // 6))]))
+        for s in "ui":
+            for op in ("overflowing_shl", "overflowing_shr", "rotate_left", "rotate_right", "unbounded_shr"):
+                for a in edge_grid(w, n):
+                    for k in (amounts if len(edge_grid(w, n)) <= 30 else rng.sample(amounts, 3)):
+                        yield f"{op} {s}{cfg} {hx(a)} {k}", "edge-grid"
